@@ -24,7 +24,7 @@ NOUNWIND = re.compile(
     r"|alloc::vec::Vec::<T>::new"
     r"|core::slice::<impl \[T\]>::(len|is_empty|as_mut_ptr|as_ptr|get_unchecked|get_unchecked_mut|split_first|split_first_mut|split_last|split_last_mut|first|last|first_mut|last_mut|iter|iter_mut|get|get_mut)"
     r"|core::slice::from_raw_parts(_mut)?"
-    r"|core::mem::(swap|forget|take|replace|size_of|align_of)"
+    r"|core::mem::(swap|forget|take|replace|size_of|align_of|needs_drop|size_of_val|align_of_val|discriminant)"
     r"|core::ptr::NonNull::<T>::(as_mut|as_ref|as_ptr|new_unchecked)"
     r"|<core::ptr::NonNull<T> as core::convert::From<&mut T>>::from|<core::ptr::NonNull<T> as core::convert::From<&T>>::from"
     r"|core::num::<impl usize>::(checked_|overflowing_|wrapping_|saturating_)\w+"
@@ -49,7 +49,9 @@ RAW_MOVES = ("core::ptr::read", "core::ptr::copy", "core::ptr::copy_nonoverlappi
 
 
 def _orig_consistent(st):
-    return st == ("O", "O", "O") or st == ("Z", "Z", "Z") or st[0] == "P"
+    # ("A", "A", "A"): all three fields adopted from one freshly produced array value (`let TooDee { data, num_rows, num_cols } =
+    # source.clone(); self.data = data; ..`), which is valid because every construction site is judged
+    return st == ("O", "O", "O") or st == ("Z", "Z", "Z") or st[0] == "P" or st == ("A", "A", "A")
 
 
 def consistent(st):
@@ -416,7 +418,7 @@ class Fn:
 
     # ---- which blocks contain shape writes (for the intermediate/committed distinction)
     def _is_write_stmt(self, st):
-        return st["k"] == "assign" and self.dim_field(st["p"]) is not None
+        return st["k"] == "assign" and (self.dim_field(st["p"]) is not None or self._whole_data_store(st))
 
     def _is_write_term(self, t, direct=False):
         if t is None:
@@ -434,7 +436,7 @@ class Fn:
                     e = strip(self.d.expr(a))
                     if e[0] in ("ref", "refmut") and self.is_dim_expr(e[1]) is not None:
                         return True
-            if self._replace_dim(t) is not None:
+            if self._replace_dim(t) is not None or self._replace_data(t) is not None:
                 return True
             cb = self.cx.f.crate_fn_for_call(fn)
             if not direct and cb is not None and cb.id != self.b.id and is_shape_writer(self.cx, cb):
@@ -445,6 +447,26 @@ class Fn:
             if db is not None and db.id != self.b.id and is_shape_writer(self.cx, db):
                 return True
         return False
+
+    def _replace_data(self, t):
+        """`mem::replace(&mut self.data, v)` / `mem::take(&mut self.data)` / `mem::swap(&mut self.data, ..)` -> new length class"""
+        fn = t["func"].get("fn") or {}
+        if fn.get("path") not in ("core::mem::replace", "core::mem::take", "core::mem::swap") or not t["args"]:
+            return None
+        hit = None
+        for i, a in enumerate(t["args"][:2]):
+            e = strip(self.d.expr(a))
+            if e[0] in ("ref", "refmut"):
+                inner = strip(e[1])
+                if inner[0] == "field" and inner[2] == self.cx.DATA and self.is_dim_expr(("field", inner[1], self.cx.ROWS)) is not None:
+                    hit = i
+        if hit is None:
+            return None
+        if fn["path"] == "core::mem::take":
+            return "Z"
+        if fn["path"] == "core::mem::replace" and hit == 0 and len(t["args"]) > 1:
+            return "A" if self._fresh_array_field(self.d.expr(t["args"][1])) == self.cx.DATA else "V"
+        return "V"
 
     def _replace_dim(self, t):
         """`mem::replace(&mut self.dim, v)` / `mem::take(&mut self.dim)` -> (field, new value is zero?)"""
@@ -486,15 +508,35 @@ class Fn:
         f = self.dim_field(st["p"])
         if f is not None:
             z = const_usize(self.d.rvalue(st["rv"])) == 0
+            adopted = self._fresh_array_field(self.d.rvalue(st["rv"])) == f
             l, r, c = state
             if l == "P":
                 l = "V"
             if f == self.cx.ROWS:
-                r = "Z" if z else "V"
+                r = "Z" if z else ("A" if adopted else "V")
             else:
-                c = "Z" if z else "V"
+                c = "Z" if z else ("A" if adopted else "V")
             return (l, r, c)
+        if self._whole_data_store(st):
+            l, r, c = state
+            return ("A" if self._fresh_array_field(self.d.rvalue(st["rv"])) == self.cx.DATA else "V", r, c)
         return state
+
+    def _fresh_array_field(self, e):
+        """e is field i of an array VALUE that a call has just produced (`source.clone().num_rows`, destructured or not) -> i"""
+        e = strip(e)
+        if e[0] == "field" and isinstance(e[2], int):
+            base = strip(e[1])
+            if base[0] == "call" and len(base) > 4 and isinstance(base[4], dict):
+                ret = norm_ty(str(base[4].get("ret") or ""))
+                if base[2] in ("clone", "to_owned", "from", "into", "from_vec", "new", "init", "with_capacity", "default") or "TooDee<" in ret:
+                    return e[2]
+        return None
+
+    def _whole_data_store(self, st):
+        """`self.data = v` (the whole Vec replaced)"""
+        p = st["p"]
+        return st["k"] == "assign" and p["proj"] and p["proj"][-1]["k"] == "field" and self.is_data_place(p) and not [e for e in p["proj"] if e["k"] not in ("field", "deref")]
 
     def transfer_call(self, t, state):
         fn = t["func"].get("fn")
@@ -519,6 +561,9 @@ class Fn:
                     dims.append(self.is_dim_expr(e[1]))
             if len(dims) == 2 and None not in dims and set(dims) == {self.cx.ROWS, self.cx.COLS}:
                 return (l, c, r) if (r, c) != ("O", "O") else state     # exchanging the two dimensions keeps the product
+        rdat = self._replace_data(t)
+        if rdat is not None:
+            return (rdat, r, c)
         rd = self._replace_dim(t)
         if rd is not None:
             if l == "P":
